@@ -9,7 +9,9 @@ CONFIG = dict(
                 "model, and every frame of a new epoch must be empty."),
     level_note=NOTE_COMMON,
     rule=("Case = cache sizes + operation history (rapid default ~30 steps). Non-trivial = a root was appended to a frame that had already "
-          "been queried (cached), or a frame was queried again while the cache is too small to keep all frames; distinct by history hash."),
+          "been queried (cached), or a frame was queried again while the cache is too small to keep all frames; distinct by history hash. "
+          "The harness keeps the slices returned by earlier queries (the last four and every fifth one, with a copy of what they showed) and "
+          "re-reads their first len() elements after every later query, registration and epoch switch: a returned list must not change."),
     assumptions=["every registered root event has a distinct ID (real callers register an event once)"],
     level_more='Frames with up to 130+ roots registered in a row and root caches of 101, 250 and 1000 entries are included.',
     units=[dict(test="TestC33Roots", quick=5000, thorough=320000, shards=16)],
